@@ -1,3 +1,4 @@
+import Harper.Driver.Pattern
 import Harper.Driver.Ignore
 import Harper.Driver.Title
 import Harper.Driver.PosConv
@@ -37,7 +38,15 @@ def handlers : List (String × (List String → String)) := [
   ("cdec", handleCdec), ("capply", handleCapply),
   ("ig", handleIg),
   ("ce", handleCe),
-  ("tc", handleTc)
+  ("tc", handleTc),
+  ("pat", handlePat),
+  ("roc", handleRoc),
+  ("fam", handleFam),
+  ("lint", handleLint),
+  ("chunks", handleChunks),
+  ("pata", handlePatA),
+  ("roca", handleRocA),
+  ("fama", handleFamA)
 ]
 
 def handle (line : String) : String :=
